@@ -31,7 +31,14 @@ def explore(ctx, art):
     lines += ["case tcp %s stalled %s" % (o, c) for o in OPS for c in CAUSES]
     # server side (real sockets, real time): a blocked DiscoveryRequest; Stop() with 0/1/3 connections whose handlers block
     lines += ["case udp discover live %s" % c for c in ("cancel", "deadline", "close")]
-    lines += ["case %s srvstop k%d stop" % (t, k) for t in ("udp", "tcp") for k in (0, 1, 3)]
+    lines += ["case %s srvstop k%d stop" % (t, k) for t in ("udp", "tcp", "dtls") for k in (0, 1, 3)]
+    # DTLS (pion's real handshake and record layer, loopback): the peer never answers the ClientHello; the peer completes the
+    # handshake and stays silent / acknowledges without responding
+    lines += ["case dtls %s handshake %s" % (o, c) for o in OPS if o != "obscancel" for c in ("cancel", "deadline", "close")]
+    # (no `peerclose` here: a DTLS peer's closure reaches the client only as a close_notify datagram, and pion's listener side
+    # does not always get it out before its socket demultiplexer forgets the peer - 1 run in ~20 on loopback; the client then
+    # cannot know.  The harness still accepts the case for experiments.)
+    lines += ["case dtls %s %s %s" % (o, p, c) for o in OPS for p in ("live", "liveack") for c in ("cancel", "deadline", "close")]
     impl = common.run_test_harness(ctx, art["test"], "TestC09", lines, timeout=1500)
     if impl is None or len(impl) != len(lines):
         return
